@@ -31,17 +31,11 @@ VARIABLE l
 Arr(sh, v) == [sh |-> sh, v |-> v]
 
 ExactValue(e) ==
-  LET c == e.case
-      x == Arr(c.shapes[1], e.xin)
-      y == Arr(IF Len(c.shapes) = 2 THEN c.shapes[2] ELSE c.shapes[1], e.yin)
-      unary == c.ucls \in {"u1", "u2"}
-  IN  CASE c.method = "call" /\ unary -> ExactCall1(e.name, x)
-        [] c.method = "call"       -> ExactCall2(e.name, x, y)
-        [] c.method = "reduce"     -> ExactReduce(e.name, x, c.axis, c.keepdims)
-        [] c.method = "accumulate" -> ExactAccumulate(e.name, x, c.axis)
-        [] c.method = "outer"      -> ExactOuter(e.name, x, y)
-        [] c.method = "at"         -> ExactAt(e.name, x, c.idx, e.b, unary)
-        [] c.method = "reduceat"   -> ExactReduceAt(e.name, x, c.idx, c.axis)
+  LET c == e.case IN
+  ExactUfunc(e.name, [method |-> c.method, unary |-> c.ucls \in {"u1", "u2"},
+                      x |-> Arr(c.shapes[1], e.xin),
+                      y |-> Arr(IF Len(c.shapes) = 2 THEN c.shapes[2] ELSE c.shapes[1], e.yin),
+                      axis |-> c.axis, keepdims |-> c.keepdims, idx |-> c.idx, b |-> e.b])
 
 Tuplify(f) == [i \in 1..Len(f) |-> f[i]]
 
